@@ -112,6 +112,23 @@ expect_uninitialised(const char *key, const char *ctx)
     for (int i = 0; i < 8; i++)
         if (r[i].code != REG_ACCESS_UNINITIALISED)
             vh_fail("not-reported-uninitialised", key, "%s: %s returned code=%d", ctx, what[i], r[i].code);
+    /* whatever the type of the value handed in (also one the operation would refuse on a working table) and whatever
+     * the handle: the table's state is what gets reported */
+    for (int t = 0; t < 8; t++) {
+        RegisterValue tv = { .type = (RegisterType)t, .value = rt_from_bits(t, 1) };
+        static const RegisterHandle hs[] = { 0, 1, 1000, UINT32_MAX };
+        RegisterHandle h = hs[(unsigned)t % 4];
+        RegisterAccess q[4];
+        q[0] = register_set(&inst.t, h, tv);
+        q[1] = register_set_unsafe(&inst.t, h, tv);
+        q[2] = register_bit_set(&inst.t, h, tv);
+        q[3] = register_bit_clear(&inst.t, h, tv);
+        static const char *qn[] = { "register_set", "register_set_unsafe", "register_bit_set", "register_bit_clear" };
+        for (int i = 0; i < 4; i++)
+            if (q[i].code != REG_ACCESS_UNINITIALISED)
+                vh_fail("not-reported-uninitialised", key, "%s: %s(handle %u, value of type %s) returned code=%d", ctx, qn[i], h,
+                        rt_tname[t], q[i].code);
+    }
     if (calls)
         vh_fail("not-reported-uninitialised", key, "%s: iteration callback called %d times", ctx, calls);
 }
